@@ -47,7 +47,7 @@ REQUIRED_PROBES = ['count_negative', 'count_gt_depth', 'count_eq_depth',
                    'nested_depth_3', 'try_wrapped_exempt', 'name_lowercase',
                    'alias_lowercase', 'failed_activation', 'node_restart',
                    'program_accepted_upgraded', 'upgraded_rejects_legacy_accepts',
-                   'merkleval_program_accepted_upgraded']
+                   'merkleval_program_accepted_upgraded', 'nop_probe_nested']
 SPELL_CONTEXTS = ['true if { %s }', 'def 0 { %s }', 'try { %s } except { true }',
                   'true loop { %s false }', 'false if { true } else { %s }']
 PREDS = ['all_equal', 'all_distinct', 'none_empty', 'total_len_le', 'first_is_sha_of_second',
@@ -313,7 +313,8 @@ class Prog:
     def nested(self, depth, nest):
         rng = self.rng
         c = T.compile_script
-        kind = rng.choice(['if', 'if_skip', 'ifelse_t', 'ifelse_f', 'defcall', 'eval', 'loop', 'try'])
+        kind = rng.choice(['if', 'if_skip', 'ifelse_t', 'ifelse_f', 'defcall', 'eval', 'loop', 'try',
+                           'except'])
         self.nests.append(kind)
         if kind == 'try':
             before = self.sites
@@ -325,6 +326,15 @@ class Prog:
             code = bytes([opt]) + len(body).to_bytes(2, 'big') + body + \
                 len(exc).to_bytes(2, 'big') + exc
             # a failing body is swallowed: depth unknown afterwards -> treat as error-prone
+            return code, d2
+        if kind == 'except':
+            # the fallback path: the TRY clause fails, the EXCEPT clause runs; an op
+            # there is NOT wrapped in the TRY block, so an error in it must count
+            body, d2 = self.block(depth, nest + 1, rng.rng(1, 3))
+            tr = c('false verify')
+            opt = F.opcodes_inverse['OP_TRY_EXCEPT'][0]
+            code = bytes([opt]) + len(tr).to_bytes(2, 'big') + tr + \
+                len(body).to_bytes(2, 'big') + body
             return code, d2
         if kind in ('if', 'if_skip'):
             body, d2 = self.block(depth, nest + 1, rng.rng(1, 3))
@@ -428,7 +438,8 @@ def gen_plan(run_seed, idx, tier):
             d = rng.choice([0, 1, 2, 3, 3, 127, 128, 129, 255, 256])
             code = rng.choice([f['code'] for f in forks] + [CODES[(base + 7 * i) % len(CODES)]])
             count = rng.choice([0, 1, d, d, max(d - 1, 0), (d + 1) & 0xff, 127, 128, 255, rng.below(256)])
-            txs['t%d' % i] = {'kind': kind, 'code': code, 'count': count & 0xff, 'depth': d}
+            txs['t%d' % i] = {'kind': kind, 'code': code, 'count': count & 0xff, 'depth': d,
+                              'nest': rng.choice(NOP_NESTS)}
         elif kind == 'fork_tx':
             f = rng.choice(forks)
             m = rng.rng(0, 5)
@@ -483,7 +494,7 @@ def tx_scripts(tx, forks):
     k = tx['kind']
     if k == 'nop_probe':
         code = b''.join(push_bytes(bytes([i & 0xff, 7])) for i in range(tx['depth']))
-        code += bytes([tx['code'], tx['count']])
+        code += wrap_op(bytes([tx['code'], tx['count']]), tx.get('nest', 'top'))
         return [code], {}
     if k == 'fork_tx':
         f = forks[tx['fork']]
@@ -499,6 +510,33 @@ def tx_scripts(tx, forks):
             return [bytes.fromhex(x) for x in tx['scripts']], {}
         return [bytes.fromhex(tx['code'])], {}
     raise ValueError(k)
+
+
+def wrap_op(op, nest):
+    """the two bytes <code><count> inside a nesting context in which they are
+    executed exactly once and in which an error must still fail the script (so:
+    not the TRY clause)"""
+    c = T.compile_script
+    o = F.opcodes_inverse
+    n2 = len(op).to_bytes(2, 'big')
+    if nest == 'top':
+        return op
+    if nest == 'if':
+        return c('true') + bytes([o['OP_IF'][0]]) + n2 + op
+    if nest == 'else':
+        a = c('true pop0')
+        return c('false') + bytes([o['OP_IF_ELSE'][0]]) + len(a).to_bytes(2, 'big') + a + n2 + op
+    if nest == 'except':
+        tr = c('false verify')
+        return bytes([o['OP_TRY_EXCEPT'][0]]) + len(tr).to_bytes(2, 'big') + tr + n2 + op
+    if nest == 'call':
+        return bytes([o['OP_DEF'][0], 0]) + n2 + op + bytes([o['OP_CALL'][0], 0])
+    if nest == 'eval':
+        return push_bytes(op) + c('eval')
+    raise ValueError(nest)
+
+
+NOP_NESTS = ['top', 'top', 'top', 'if', 'else', 'except', 'call', 'eval']
 
 
 def expected_fork_tx(tx, forks, active):
@@ -685,7 +723,14 @@ def judge_nop(run, node, tx, forks, aset, code, i):
     forked = [j for j in aset if forks[j]['code'] == tx['code']]
     d, cnt = tx['depth'], tx['count']
     r = node.call('run', code, {'timestamp': 1})
-    base = node.call('run', code[:-2], {'timestamp': 1})
+    pushes = b''.join(push_bytes(bytes([j & 0xff, 7])) for j in range(tx['depth']))
+    base = node.call('run', pushes, {'timestamp': 1})
+    if tx.get('nest', 'top') != 'top':
+        run.probe('nop_probe_nested')
+        if r[0] == 'ok' and base[0] == 'ok':
+            # cache keys a nesting op may legitimately add (e.g. b'E' after a failed
+            # TRY clause) are not an effect of the NOP
+            r = [r[0], [r[1][0], [k for k in r[1][1] if k in base[1][1]]]]
     if cnt > 127:
         run.probe('count_negative')
     elif cnt > d:
